@@ -34,7 +34,7 @@ add("c02-overlap-minus1", "C02", "solver.py",
     "z3.Or(start_task_k >= end_task_i, start_task_i >= end_task_k)",
     "z3.Or(start_task_k >= end_task_i - 1, start_task_i >= end_task_k - 1)")
 add("c02-delay-in-ignored", "C02", "task.py",
-    "resource_busy_start == self._start + delay_in", "resource_busy_start == self._start")
+    "busy_start = self._start + delay_in if delay_in > 0 else self._start", "busy_start = self._start")
 add("c02-exact-as-min", "C02", "resource.py",
     'problem_function = {"min": z3.PbGe, "max": z3.PbLe, "exact": z3.PbEq}\n\n        # TODO: move to the validator',
     'problem_function = {"min": z3.PbGe, "max": z3.PbLe, "exact": z3.PbGe}\n\n        # TODO: move to the validator')
@@ -200,10 +200,12 @@ add("c13-export-reinitializes", "C13", "solver.py",
     '        """export the model to a smt file to be processed by another SMT solver"""\n        self.initialize()')
 # ---- C14
 add("c14-negative-int-constant", "C05", "problem.py", "        self._unique_integer += -1\n        return self._unique_integer", "        return -1")
-add("c14-point-in-past-by-name-length", "C14", "task.py", "            point_in_past = -self._task_number", "            point_in_past = -len(self.name)")
+add("c14-point-in-past-by-name-length", "C14", "task.py",
+    "            point_in_past = (\n                processscheduler.base.active_problem.get_unique_negative_integer()\n            )",
+    "            point_in_past = -len(self.name)")
 add("c14-class-level-counter", "C14", "task.py",
-    "        self._task_number = processscheduler.base.active_problem.add_task(self)  # type: int",
-    "        processscheduler.base.active_problem.add_task(self)\n        Task._rtmon_counter = getattr(Task, '_rtmon_counter', 0) + 1\n        self._task_number = 1 + Task._rtmon_counter % 3  # type: int")
+    "            point_in_past = (\n                processscheduler.base.active_problem.get_unique_negative_integer()\n            )",
+    "            Task._rtmon_counter = getattr(Task, '_rtmon_counter', 0) + 1\n            point_in_past = -(1 + Task._rtmon_counter % 3)")
 # ---- C15
 add("c15-debug-first-only", "C15", "solver.py",
     "            for asst in assts:\n                asst_identifier", "            for asst in assts[:1]:\n                asst_identifier")
